@@ -38,9 +38,9 @@ func clampZooms(lo, hi int64) []int64 {
 // worlds enumerates root voxels: zoom pairs x first/last column,row x f-root classes.
 func worlds(tier string) []world {
 	type hv struct{ h, v int64 }
-	roots := []hv{{0, 0}, {1, 1}, {2, 0}, {0, 2}, {13, 16}, {24, 25}, {33, 33}}
+	roots := []hv{{0, 0}, {1, 1}, {2, 0}, {0, 2}, {24, 25}, {33, 33}}
 	if tier == "thorough" {
-		roots = append(roots, hv{25, 24}, hv{3, 3}, hv{31, 26}, hv{7, 30})
+		roots = append(roots, hv{13, 16}, hv{25, 24}, hv{3, 3}, hv{31, 26}, hv{7, 30})
 	}
 	var ws []world
 	for _, r := range roots {
@@ -397,8 +397,18 @@ func voxMachine(prop string, w world, verify string, depth, maxStates int, repla
 	if w.twin != nil {
 		inits = append(inits, canonSet(ref.NewSet(w.root, *w.twin)))
 	}
+	// a sparse mixed-zoom start: one child of the root and one grandchild under another child
+	// (judged first, and judged again at the end after the rest of the search has run)
+	if w.root.H+2 <= 35 && w.root.V+2 <= 35 {
+		ch := w.root.ChangeZoom(w.root.H+1, w.root.V+1)
+		g := ch[len(ch)-1].ChangeZoom(w.root.H+2, w.root.V+2)
+		inits = append(inits, canonSet(ref.NewSet(ch[0], g[len(g)-1])))
+	}
 	m := &engine.Machine{Property: prop, Name: verify + "@" + w.name, Inits: inits, MaxDepth: depth, MaxStates: maxStates, ReplayLastLevel: replay}
 	m.NumOps = func(s []string) int { return len(ops) }
+	m.Verified = func(s []string, i int) bool { return ops[i].kind == verify }
+	m.LeafSweepMaxSize = 0
+	m.Rejudge = 400
 	m.OpName = func(s []string, i int) string { return ops[i].String() }
 	m.Step = func(s []string, i int) engine.StepResult {
 		op := ops[i]
